@@ -2736,6 +2736,32 @@ def register_all(M):
     def m_print(it, args, callee):
         return UNIT
 
+    @reg("str::replace", "str::replacen")
+    def m_str_replace(it, args, callee):
+        el = list(elems_of(args[0]))
+        pat, to = args[1], list(elems_of(args[2]))
+        limit = as_int(it, args[3], 0, 64, "replacen count") if method_name(callee) == "replacen" else None
+        dp = deref(pat) if isinstance(pat, Ref) else pat
+        if isinstance(dp, (Str, SString)):
+            p = list(dp.elems)
+            if len(p) != 1:
+                if any(is_sym(c) for c in p + el) or not p:
+                    raise Unsupported("str::replace with a string pattern over symbolic text")
+                text, pt = "".join(chr(c) for c in el), "".join(chr(c) for c in p)
+                r = text.replace(pt, "".join(chr(c) for c in to) if all(not is_sym(c) for c in to) else "\0", -1 if limit is None else limit)
+                if "\0" in r:
+                    raise Unsupported("str::replace with a symbolic replacement")
+                return SString([ord(ch) for ch in r])
+            pat = p[0]
+        out, n = [], 0
+        for ch in el:
+            if (limit is None or n < limit) and char_matches(it, ch, pat):
+                out.extend(to)
+                n += 1
+            else:
+                out.append(ch)
+        return SString(out)
+
     @reg("str::is_ascii")
     def m_str_is_ascii(it, args, callee):
         conds = []
